@@ -315,6 +315,37 @@ class Item:
                                   "from its own body text (body unchanged)" % body})
         return self
 
+    def add_spec_twins(self, renames):
+        """For every `fn NAME(&self) -> T { BODY }` in this impl/trait text whose NAME is a key of `renames`,
+        append `open spec fn spec_NAME(&self) -> T { BODY' }` where BODY' is the same text with calls
+        `.NAME()` renamed to `.spec_NAME()`.  The exec method gets `ensures r == self.spec_NAME()` from the
+        trait declaration, so Verus proves the twin equal to the real body on every run: the twin is not a
+        model, it is the same text re-read in spec mode."""
+        src = self.text
+        toks = code_tokens(src)
+        twins = []
+        for idx, (kind, s, e) in enumerate(toks):
+            if kind == "ident" and src[s:e] == "fn" and idx + 1 < len(toks):
+                nm = src[toks[idx + 1][1]:toks[idx + 1][2]]
+                if nm not in renames:
+                    continue
+                bi = find_block_open(src, toks, idx)
+                if bi is None:
+                    continue
+                close = match_brace(src, toks, bi)
+                sig = src[toks[idx + 1][2]:toks[bi][1]]
+                body = src[toks[bi][1]:toks[close][2]]
+                for a, b in renames.items():
+                    body = re.sub(r"\.%s\(\)" % a, ".%s()" % b, body)
+                twins.append("    open spec fn %s%s%s" % (renames[nm], sig, body))
+        if not twins:
+            raise ExtractionError("%s: no method found for spec twins" % self.name)
+        last = src.rindex("}")
+        self.text = src[:last] + "\n" + "\n".join(twins) + "\n" + src[last:]
+        self.rewrites.append({"rule": "twin", "what": "appended %d spec twins (same body text re-read in spec mode; "
+                              "equality with the exec method is a proved postcondition)" % len(twins)})
+        return self
+
     def label_line_containing(self, needle, label):
         """Append `// @label` to the (single) line containing needle (comment only)."""
         lines = self.text.split("\n")
@@ -586,6 +617,89 @@ class Extractor:
                   line_of(src, s + q2), "slice")
         it.dropped = "rest of fn %s (lines %d-%d) outside the slice" % (
             fn_name, line_of(src, s), line_of(src, e))
+        return it
+
+    # -- R4: skeleton of an enum that lives in a dependency (read from the cargo registry copy that
+    #        Cargo.lock pins): same variant and field names; every payload type outside `keep` becomes
+    #        `OpaqueT` (an external_body struct), so extracted text can match on / construct the variants.
+    def external_enum(self, crate, relpath, name, keep=(), rename=None):
+        import glob
+        cands = sorted(glob.glob(os.path.expanduser("~/.cargo/registry/src/*/%s/%s" % (crate, relpath))))
+        if not cands:
+            raise ExtractionError("dependency source not found: %s/%s" % (crate, relpath))
+        src = open(cands[0], encoding="utf-8").read()
+        toks, idx = self._find_item(src, "enum", name)
+        if idx is None:
+            raise ExtractionError("enum %s not found in %s" % (name, cands[0]))
+        s, e = self._item_span(src, toks, idx)
+        text = src[s:e]
+        it = Item(self, "<registry>/%s/%s" % (crate, relpath), name, text, line_of(src, s), line_of(src, e), "enum")
+        it.drop_attrs()
+        body = it.text[it.text.index("{") + 1: it.text.rindex("}")]
+        bt = code_tokens(body)
+        # split variants at depth-0 commas
+        variants, depth, start = [], 0, 0
+        for kind, a, b in bt:
+            ch = body[a:b]
+            if kind == "punct":
+                if ch in "([{<":
+                    depth += 1
+                elif ch in ")]}>":
+                    if ch == ">" and body[a - 1] == "-":
+                        continue
+                    depth -= 1
+                elif ch == "," and depth == 0:
+                    variants.append(body[start:a].strip())
+                    start = b
+        if body[start:].strip():
+            variants.append(body[start:].strip())
+        keep = set(keep)
+
+        def map_ty(t):
+            t = " ".join(t.split())
+            return t if t in keep else "OpaqueT"
+
+        def split_top(sx):
+            out, depth, st = [], 0, 0
+            for i, ch in enumerate(sx):
+                if ch in "([{<":
+                    depth += 1
+                elif ch in ")]}>":
+                    depth -= 1
+                elif ch == "," and depth == 0:
+                    out.append(sx[st:i])
+                    st = i + 1
+            if sx[st:].strip():
+                out.append(sx[st:])
+            return [o.strip() for o in out if o.strip()]
+
+        lines = []
+        n_opaque = 0
+        for v in variants:
+            v = re.sub(r"//[^\n]*", "", v).strip()
+            m = re.match(r"([A-Za-z_][A-Za-z0-9_]*)\s*(.*)$", v, re.S)
+            vname, rest = m.group(1), m.group(2).strip()
+            if not rest:
+                lines.append("    %s," % vname)
+            elif rest.startswith("("):
+                tys = [map_ty(t) for t in split_top(rest[1:rest.rindex(")")])]
+                n_opaque += tys.count("OpaqueT")
+                lines.append("    %s(%s)," % (vname, ", ".join(tys)))
+            else:
+                fields = []
+                for f in split_top(rest[1:rest.rindex("}")]):
+                    fn_, ty = f.split(":", 1)
+                    ty = map_ty(ty.strip())
+                    n_opaque += ty == "OpaqueT"
+                    fname = fn_.strip().replace("pub ", "")
+                    if fname.startswith("r#"):
+                        fname = fname[2:] + "_"  # raw identifiers are not accepted by Verus; field is never named in extracted text
+                    fields.append("%s: %s" % (fname, ty))
+                lines.append("    %s { %s }," % (vname, ", ".join(fields)))
+        it.text = "pub enum %s {\n%s\n}" % (rename or name, "\n".join(lines))
+        it.rewrites.append({"rule": "R4", "what": "skeleton of dependency enum %s: %d variants kept by name, %d payload "
+                            "types replaced by OpaqueT" % (name, len(variants), n_opaque)})
+        it.variants = [re.match(r"\s*([A-Za-z_0-9]+)", l).group(1) for l in lines]
         return it
 
     def describe(self):
